@@ -41,7 +41,7 @@ ANCHORS = [
     "stereomolgraph.graphs.scrg:StereoCondensedReactionGraph.from_graphs#scrg.set_bond_stereo_change(formed=p_stereo, broken=r_stereo)",
 ]
 REQUIRED_ANCHORS = ANCHORS
-REQUIRED = ["triples", "with_ts", "without_ts", "reversals", "double_reversals", "fleeting_bonds", "fleeting_stereo", "ts_only_descriptors"]
+REQUIRED = ["triples", "with_ts", "without_ts", "reversals", "double_reversals", "fleeting_bonds", "fleeting_stereo", "ts_only_descriptors", "scale_cases"]
 
 
 def _bonds(rng, ids, max_deg=4, p=0.35):
@@ -64,8 +64,40 @@ def _struct(cls, atoms, bonds):
     return g
 
 
+def _big_triple(rng, cls, n):
+    """reactant = very long chain (gen.scale_pg); product: two backbone bonds broken, two bonds formed between distant
+    atoms, one centre inverted, one descriptor gone; TS: all of these bonds plus one contact of its own"""
+    r = gen.scale_pg(rng, cls, n)
+    busy = {x for d in r["astereo"].values() for x in d[1] if x is not None}
+    nb = sem.pg_neighbors(r)
+    p = sem.pg_copy(r)
+    free_bonds = [b for b in sorted(r["bonds"], key=sorted) if not (b & busy)]
+    for b in rng.sample(free_bonds, 2):
+        del p["bonds"][b]
+    free_atoms = [a for a in sorted(r["atoms"]) if a not in busy and len(nb[a]) <= 2]
+    added = []
+    while len(added) < 3:
+        x, y = rng.sample(free_atoms, 2)
+        if frozenset((x, y)) not in r["bonds"] and frozenset((x, y)) not in added:
+            added.append(frozenset((x, y)))
+    for b in added[:2]:
+        p["bonds"][b] = {}
+    t = sem.pg_copy(r)
+    for b in added:
+        t["bonds"][b] = {}
+    if cls == "StereoMolGraph" and r["astereo"]:
+        cs = sorted(r["astereo"])
+        p["astereo"][cs[0]] = sem.desc_invert(r["astereo"][cs[0]])
+        if len(cs) > 1:
+            del p["astereo"][cs[1]]
+            del t["astereo"][cs[1]]
+    return r, p, t
+
+
 def gen_cases(ctx):
     rng = ctx.rng
+    for k, nsz, cls4, seed in gen.scale_specs(ctx, rng, reps=1):
+        yield {"stereo": cls4.startswith("Stereo"), "scale": nsz, "gseed": seed, "with_ts": k % 3 != 0, "bseed": seed // 3}
     n = ctx.n(6000, 120000)
     for i in range(n):
         stereo = i % 4 != 0
@@ -128,8 +160,13 @@ def check_case(ctx, case):
     C = classes()
     stereo = case["stereo"]
     cls = "StereoCondensedReactionGraph" if stereo else "CondensedReactionGraph"
-    r, p = pg_from_json(case["r"]), pg_from_json(case["p"])
-    t = pg_from_json(case["ts"]) if case["ts"] else None
+    if "scale" in case:
+        ctx.count("scale_cases")
+        r, p, t = _big_triple(random.Random(case["gseed"]), "StereoMolGraph" if stereo else "MolGraph", case["scale"])
+        t = t if case["with_ts"] else None
+    else:
+        r, p = pg_from_json(case["r"]), pg_from_json(case["p"])
+        t = pg_from_json(case["ts"]) if case["ts"] else None
     brng = random.Random(case["bseed"])
     try:  # reactant, product and TS reach from_graphs through independent, seed-chosen provenances (different internal orders)
         gr, via = build_case(r, case["bseed"])
@@ -234,7 +271,7 @@ def check_case(ctx, case):
             ctx.count("eq_hash_after_double_reversal")
         except Exception as e:  # noqa: BLE001
             ctx.violate(f"C08/double-reverse/{cls}/eq-raises:{type(e).__name__}/{tkey}", f"== / hash raised {e!r}", case)
-    ctx.sample({"class": cls, "r": case["r"], "p": case["p"], "ts": case["ts"], "formed": sorted(map(sorted, want["formed"])), "broken": sorted(map(sorted, want["broken"])), "fleeting": sorted(map(sorted, want["fleeting"]))})
+    ctx.sample({"class": cls, "r": case.get("r", f"chain of {case.get('scale')} atoms"), "p": case.get("p"), "ts": case.get("ts"), "formed": sorted(map(sorted, want["formed"])), "broken": sorted(map(sorted, want["broken"])), "fleeting": sorted(map(sorted, want["fleeting"]))})
 
 
 def _drop_empty(S):
